@@ -65,8 +65,19 @@ func lockStuck(dump string, probe uint64) (bool, string) {
 		return false, ""
 	}
 	wit := pb.text
+	self := sched.GoID()
 	for _, b := range blocks {
-		if b.id == probe || !strings.Contains(b.text, dbgFrame) {
+		if b.id == probe || b.id == self {
+			continue
+		}
+		// a debugger method that holds the lock may itself be parked on another
+		// lock (a scope lock during inject / extract) whose holder is outside the
+		// debugger: while any goroutine can still take a step the picture is not
+		// final, however long the machine keeps that goroutine off the processor
+		if b.state == "running" || b.state == "runnable" || b.state == "syscall" || b.state == "IO wait" {
+			return false, ""
+		}
+		if !strings.Contains(b.text, dbgFrame) {
 			continue
 		}
 		if !blockedState(b.state) {
